@@ -133,6 +133,39 @@ def fixed_inputs(run, batch):
             if not ok:
                 run.fail("fixed-input", case, r)
         batch.add("fixed-input", text, False, "upper")
+    twin_docs(run, batch)
+
+
+TWINS = [
+    # (line, mnemonic, (value, descr) outside ~Parameter: the LAST colon, (value, descr) inside ~Parameter: the first non-clock colon)
+    ("DFD .K/M3 1525 : Drill Fluid: Density", "DFD", ("1525 : Drill Fluid", "Density"), ("1525", "Drill Fluid: Density")),
+    ("LOC .   BLOCK 7: NORTH FLANK : LOCATION", "LOC", ("BLOCK 7: NORTH FLANK", "LOCATION"), ("BLOCK 7", "NORTH FLANK : LOCATION")),
+    ("RUN . 1 : a: b :c", "RUN", ("1 : a: b", "c"), ("1", "a: b :c")),
+]
+
+
+def twin_docs(run, batch):
+    """the SAME line text under titles of different kinds: each occurrence is split by the rules of its own section"""
+    import itertools
+    import lasio
+    for line, mn, outside, inside in TWINS:
+        blocks = {"W": "~Well\nSTRT.M 1 : s\nSTOP.M 2 : s\nSTEP.M 1 : s\nNULL. -999.25 : n\n" + line + "\n",
+                  "P": "~Parameter\n" + line + "\n", "X": "~Tops\n" + line + "\n", "C": "~Curve\nDEPT.M : d\n"}
+        for order in itertools.permutations("WPXC"):
+            text = "~Version\nVERS. 2.0 : v\nWRAP. NO : w\n" + "".join(blocks[k] for k in order) + "~A\n1\n2\n"
+            case = {"text": text, "twin": line}
+            run.case(case, nontrivial=True, tags=["twin-lines"])
+            try:
+                las = lasio.read(text)
+                got = {"Well": (str(las.well[mn].value), las.well[mn].descr), "Parameter": (str(las.params[mn].value), las.params[mn].descr),
+                       "Tops": (str(las.sections["Tops"][mn].value), las.sections["Tops"][mn].descr)}
+            except Exception as e:
+                run.fail("twin-lines", case, {"exc": repr(e)})
+                continue
+            want = {"Well": outside, "Parameter": inside, "Tops": outside}
+            if got != want:
+                run.fail("twin-lines", case, {"expected": want, "observed": got})
+            batch.add("twin", text, False, "upper")
 
 
 def data_ok(secs, dump):
